@@ -27,19 +27,22 @@ func NewDialerSelectionPolicyFromGroupParam(param *config.Group) (policy *Dialer
 		return nil, fmt.Errorf("policy should be exact 1 function: got %v", len(fs))
 	}
 	f := fs[0]
+	if f.Not {
+		return nil, fmt.Errorf("policy param does not support not operator: !%v()", f.Name)
+	}
 	switch fName := consts.DialerSelectionPolicy(f.Name); fName {
 	case consts.DialerSelectionPolicy_Random,
 		consts.DialerSelectionPolicy_MinAverage10Latencies,
 		consts.DialerSelectionPolicy_MinLastLatency,
 		consts.DialerSelectionPolicy_MinMovingAverageLatencies:
+		if len(f.Params) != 0 {
+			return nil, fmt.Errorf(`policy "%v" takes no parameter`, f.Name)
+		}
 		return &DialerSelectionPolicy{
 			Policy: fName,
 		}, nil
 	case consts.DialerSelectionPolicy_Fixed:
 
-		if f.Not {
-			return nil, fmt.Errorf("policy param does not support not operator: !%v()", f.Name)
-		}
 		if len(f.Params) != 1 || f.Params[0].Key != "" {
 			return nil, fmt.Errorf(`invalid "%v" param format`, f.Name)
 		}
